@@ -123,6 +123,28 @@ def make_alpha(cfg, universe, signals):
     from qstrader.alpha_model.single_signal import SingleSignalAlphaModel
     a = cfg['alpha']
     kind = a['kind']
+    if cfg.get('probe_signals'):
+        # a recording alpha model: at every call (i.e. at every rebalance) it reads, through the public
+        # __call__ of every signal, the value for every current universe member and lookback, then answers
+        # like the wrapped model.  This is how C16 observes what the signals were fed, day by day.
+        inner = make_alpha(dict(cfg, probe_signals=None), universe, signals)
+
+        class Probe(AlphaModel):
+            records = []
+
+            def __call__(self, dt):
+                for name, sig in signals.signals.items():
+                    for x in universe.get_assets(dt):
+                        for n in cfg['probe_signals']:
+                            try:
+                                v = float(sig(x, n))
+                            except Exception as e:  # noqa
+                                v = repr(e)
+                            self.records.append((dt, name, x, n, v))
+                return inner(dt)
+        pr = Probe()
+        pr.records = []
+        return pr
     if kind == 'fixed':
         return FixedSignalsAlphaModel(dict(a['weights']))
     if kind == 'single':
@@ -215,6 +237,7 @@ class Obs(object):
         self.session = None
         self.signals = None
         self.alloc_table = None
+        self.probe = None      # (dt, signal name, asset, lookback, value) read at every rebalance (cfg['probe_signals'])
 
     def digest_parts(self, with_order_ids=False):
         fills = [(str(f[0]), f[1], float(f[2]), repr(float(f[3])), repr(float(f[4]))) + ((f[5],) if with_order_ids else ())
@@ -242,6 +265,7 @@ def build_session(cfg, handler, universe=None):
         start, end, universe, alpha, signals=signals, initial_cash=float(cfg.get('cash', 10000.0)),
         rebalance=cfg['rebalance'], long_only=cfg['long_only'], fee_model=make_fee(cfg.get('fee', ['zero'])),
         burn_in_dt=None if burn is None else pd.Timestamp(burn), data_handler=handler, **kw)
+    session._verif_probe = getattr(alpha, 'records', None)      # harness-side only: the recording alpha's list
     return session, signals
 
 
@@ -256,6 +280,7 @@ def run_session(cfg, handler, universe=None, fresh=True):
     obs = Obs()
     session, signals = build_session(cfg, handler, universe)
     obs.session, obs.signals = session, signals
+    obs.probe = session._verif_probe
     pid = session.portfolio_id
     if cfg.get('idle_portfolio'):
         # a second, idle portfolio on the same broker account (created after the strategy's)
